@@ -352,12 +352,12 @@ pub fn run(tier: Tier, seed: u64, replay: Option<&std::path::Path>) -> i32 {
 
     // (4) random names
     let cases = tier.pick(4000, 60000);
-    run.explore(1, 16, cases / 16, (name_strategy(), name_strategy()).prop_map(|(a, b)| PairCase { a, b }), check_pair);
+    run.explore(1, 16, cases / 16, || (name_strategy(), name_strategy()).prop_map(|(a, b)| PairCase { a, b }), check_pair);
     // pairs that share a base by construction
-    let same_base = (version_strategy(), version_strategy(), prop_oneof![Just("a:b/c"), Just("a.b:c/d"), Just("x-y")])
+    let same_base = || (version_strategy(), version_strategy(), prop_oneof![Just("a:b/c"), Just("a.b:c/d"), Just("x-y")])
         .prop_map(|(v, w, b)| PairCase { a: format!("{b}@{v}"), b: format!("{b}@{w}") });
     run.explore(2, 16, cases / 16, same_base, check_pair);
-    let map_strat = (proptest::collection::vec(name_strategy(), 1..7), proptest::collection::vec(name_strategy(), 1..10))
+    let map_strat = || (proptest::collection::vec(name_strategy(), 1..7), proptest::collection::vec(name_strategy(), 1..10))
         .prop_map(|(inserts, mut lookups)| {
             // also look up perturbed versions of what was inserted
             for n in &inserts {
